@@ -428,7 +428,8 @@ def stepFile (d : DState) (toks : List String) : DState × String :=
   | ["fgen", "r"] =>
     let d1 := { d with fileCroot := [d.fileRoot] }
     (d1, s!"ok root={rootsTok (mergeAnchors d.sys.st.cfg [d.fileRoot])} ev=- | {st d1}")
-  | ["fstress", _] => (d, "ok fstress")   -- file replacement concurrent with GenerateSecret: observed, not modelled
+  | ["fstress", _] => (d, "ok fstress")
+  | ["fflicker"] => (d, "cb=1")   -- after the file stopped flickering it is watched: its replacement is announced   -- file replacement concurrent with GenerateSecret: observed, not modelled
   | ["fwrite", "w"] =>
     let d1 := { d with fileWv := d.fileWv + 1 }; (d1, s!"cb=1 other={if d.kube then "*" else "0"} | {st d1}")
   | ["fwrite", "r"] =>
@@ -439,6 +440,21 @@ def stepFile (d : DState) (toks : List String) : DState × String :=
     let d1 := { d with sys := y, next := d.next + 1 }
     (d1, s!"ev={evTok (y.st.events.drop before.length)} | {st d1}")
   | _ => (d, "bad-op")
+
+/-- `rt3`: certificate, bundle update, certificate, bundle update, certificate; then the three rotation tasks (the
+    third is the current one, in whatever order they run the result is the same); then a request. -/
+def stepTimer3 : String :=
+  let ca : CAOut := .ok 3000000000 0 []
+  let y0 := seqOp (Sys.init ⟨1, 2⟩ ⟨0, 1⟩) 0 (.gen .workload) { ca := ca, now := 0 }
+  let y1 := seqOp y0 1 (.update [1]) { now := 1000 }
+  let y2 := seqOp y1 2 (.gen .workload) { ca := ca, now := 2000 }
+  let y3 := seqOp y2 3 (.update [2]) { now := 3000 }
+  let y4 := seqOp y3 4 (.gen .workload) { ca := ca, now := 4000 }
+  let y5 := seqOp y4 5 (.timer 2) { now := 5000 }
+  let y6 := seqOp y5 6 (.timer 0) { now := 6000 }
+  let y7 := seqOp y6 7 (.timer 1) { now := 7000 }
+  let y := seqOp y7 8 (.gen .workload) { ca := ca, now := 8000 }
+  s!"ev={evTok y.st.events} calls={y.st.caCalls} early=0 late=0"
 
 def stepD (d : DState) (toks : List String) : DState × String :=
   match toks with
@@ -459,8 +475,17 @@ def stepD (d : DState) (toks : List String) : DState × String :=
     match frac? rn rd, frac? jn jd with
     | some r, some J => ({ sys := Sys.init r J }, "ok")
     | _, _ => (d, "bad-op")
+  | ["case", _, "citadel", rn, rd, jn, jd, "tls"] =>      -- the transport does not change what the agent does
+    match frac? rn rd, frac? jn jd with
+    | some r, some J => ({ sys := Sys.init r J }, "ok")
+    | _, _ => (d, "bad-op")
+  -- the CA root file of the TLS transport is hidden / restored: by itself nothing happens; a failed attempt while it is
+  -- hidden is an ordinary CA error, and the next healthy one succeeds (failure_not_sticky)
+  | ["rootfile", "hide"] => (d, "ok")
+  | ["rootfile", "restore"] => (d, "ok")
   | ["case", _, "file"] => ({ file := true }, "ok")
   | ["case", _, "file", "kube"] => ({ file := true, kube := true }, "ok")
+  | ["case", _, "file", "link"] => ({ file := true }, "ok")       -- plain symlinks re-pointed on update
   | ["case", _, "sds"] => ({ sdsInit with sds := true }, "ok")
   | "case" :: _ => ({}, "ok")
   | "rot" :: _ => (d, stepRotate toks)
@@ -473,13 +498,15 @@ def stepD (d : DState) (toks : List String) : DState × String :=
   | ["cgen", r, kind] =>
     -- stream `citadel`: what the in-process CA's answer means to the agent: the trust root of a chain is
     -- its LAST element; a chain without a root (one element), an empty chain and a gRPC error are CA errors
-    if kind == "normal" then stepCache d ["gen", r, "ok", "3600", "A", "-"]
+    -- `retry`: a transient gRPC error answered by the retry interceptor's re-send: one good answer for the agent
+    if kind == "normal" || kind == "retry" then stepCache d ["gen", r, "ok", "3600", "A", "-"]
     else if kind == "three" then stepCache d ["gen", r, "ok", "3600", "B", "-"]
     else if kind == "leafonly" || kind == "empty" || kind == "error" then stepCache d ["gen", r, "signerr"]
     else (d, "bad-op")
   -- `rz`: ratio 1 on the client's OWN delayed queue: every task runs at once, after its certificate was stored
+  | ["rt3", _] => (d, stepTimer3)
   | ["rz", _] => (d, "lost-rotations=0")
-  | ["qs", _, _] => (d, "lost=0 burst:lost-delayed=0,lost=0,early=0")   -- in the model a pushed task can always be started (`spawn (.timer e)`)
+  | ["qs", _, _] => (d, "lost=0 burst:lost-delayed=0,lost=0,early=0 pairs:lost=0 far-near:misordered=0,lost=0 retry:bad=0")   -- in the model a pushed task can always be started (`spawn (.timer e)`)
   | ["outdir", _, _] => (d, "ok files")   -- OutputKeyCertToDir: observed, not modelled
   | _ => if d.file then stepFile d toks else if d.sds then stepSds d toks else stepCache d toks
 
